@@ -11,10 +11,18 @@
   * `C16_reversed_segment_rejected`   reversing one segment of a loop with at least 2 segments … is rejected
                                       (stated on the general rule: a repeated origin or end point)
 
+  * `C16_grid_margins`, `C16_grid_tight`  sizing formulas of `compute_overlapping_grid` over an exact field: every
+                                      geometry coordinate lies inside the grid with at least one full cell of
+                                      margin on both sides (origin shift `< 1/2` cell), and the grid ends less than
+                                      two cells above the maximum
+
   NOT PROVED (validated by the exact oracle of tools/props/c16.py on the real implementation, see
   SPEC["not_proved"]): every end-to-end geometric clause of the property, the grid sizing, the
   per-edge bookkeeping and the clip closure.
 -/
+import Mathlib.Algebra.Order.Field.Rat
+import Mathlib.Tactic.Linarith
+import Mathlib.Tactic.Ring
 import Honeycomb.Model.Grisubal
 
 namespace HC.C16
@@ -216,7 +224,56 @@ theorem C16_repeated_endpoint_rejected (pre mid post : List (Nat × Nat)) (v a b
     rw [this]
     simp [List.getD]
 
+/-! ## sizing of the overlapping grid (one axis, exact arithmetic) -/
+
+theorem toNat_cast_ge (z : Int) : (z : Rat) ≤ ((z.toNat : Nat) : Rat) := by
+  have h : z ≤ (z.toNat : Int) := Int.self_le_toNat z
+  have h2 : (z : Rat) ≤ ((z.toNat : Int) : Rat) := Int.cast_le.2 h
+  rwa [Int.cast_natCast] at h2
+
+/-- **C16, grid sizing**: with cell length `c > 0` and a cumulated origin shift `s < 1/2` cell (0 in
+    general position), every coordinate `v` of the geometry (`min ≤ v ≤ max`) lies inside the grid with
+    more than one full cell of margin below and at least one full cell above -/
+theorem C16_grid_margins {mn mx c s v : Rat} (hc : 0 < c) (hs : s < 1 / 2) (h1 : mn ≤ v) (h2 : v ≤ mx) :
+    gridOrigin mn c s + c < v ∧ v + c ≤ gridOrigin mn c s + (gridCells mn mx c s : Rat) * c := by
+  constructor
+  · unfold gridOrigin
+    nlinarith
+  · unfold gridCells
+    have hq : (mx - gridOrigin mn c s) / c ≤ (((mx - gridOrigin mn c s) / c).ceil : Rat) := Rat.le_ceil
+    have hq2 := toNat_cast_ge ((mx - gridOrigin mn c s) / c).ceil
+    have hq3 : (mx - gridOrigin mn c s) / c * c = mx - gridOrigin mn c s := div_mul_cancel₀ _ (ne_of_gt hc)
+    push_cast
+    nlinarith
+
+/-- … and the grid is not larger than needed: fewer than two cells above the maximum -/
+theorem C16_grid_tight {mn mx c s : Rat} (hc : 0 < c) (hs : s < 1 / 2) (h : mn ≤ mx) :
+    gridOrigin mn c s + (gridCells mn mx c s : Rat) * c < mx + 2 * c := by
+  unfold gridCells
+  have hq3 : (mx - gridOrigin mn c s) / c * c = mx - gridOrigin mn c s := div_mul_cancel₀ _ (ne_of_gt hc)
+  have hpos : 0 ≤ (mx - gridOrigin mn c s) / c := by
+    apply div_nonneg _ (le_of_lt hc)
+    unfold gridOrigin; nlinarith
+  have hc0 : (0 : Int) ≤ ((mx - gridOrigin mn c s) / c).ceil := by
+    have : ((0 : Int) : Rat) ≤ (((mx - gridOrigin mn c s) / c).ceil : Rat) := by
+      have := @Rat.le_ceil ((mx - gridOrigin mn c s) / c); simp only [Int.cast_zero]; linarith
+    exact Int.cast_le.1 this
+  have hlt : (((mx - gridOrigin mn c s) / c).ceil : Rat) < (mx - gridOrigin mn c s) / c + 1 := Rat.ceil_lt
+  have htn : ((((mx - gridOrigin mn c s) / c).ceil.toNat : Nat) : Rat) = (((mx - gridOrigin mn c s) / c).ceil : Rat) := by
+    have : ((((mx - gridOrigin mn c s) / c).ceil.toNat : Nat) : Int) = ((mx - gridOrigin mn c s) / c).ceil :=
+      Int.toNat_of_nonneg hc0
+    have h3 : ((((mx - gridOrigin mn c s) / c).ceil.toNat : Int) : Rat)
+        = (((mx - gridOrigin mn c s) / c).ceil : Rat) := by rw [this]
+    rwa [Int.cast_natCast] at h3
+  push_cast
+  rw [htn]
+  nlinarith
+
 /-! ## non-vacuity -/
+
+example : gridOrigin 0 1 0 = -3 / 2 ∧ gridCells 0 2 1 0 = 5 := by decide +kernel
+example : gridOrigin (-1 / 2) (3 / 4) 0 = -13 / 8 ∧ gridCells (-1 / 2) (5 / 2) (3 / 4) 0 = 7 := by decide +kernel
+
 
 -- a square loop is accepted; reversing its second segment makes vertex 2 start two segments
 example : detectOrientationIssue [(0, 1), (1, 2), (2, 3), (3, 0)] = false := by decide
